@@ -235,4 +235,82 @@ example :
       [(0, 200, none), (1, 200, none), (2, 429, some 3), (3, 200, none), (4, 200, none)] ∧
     retryOK reqs (runWin cfg [] reqs sched) [(2, 4)] = true := by decide
 
+/-! ### scripted counts: the advertised wait against the declarative estimate, for ANY counts and window length -/
+
+/-- **the middleware's `Retry-After` is truthful against the oracle's own estimate** — any counts (however large),
+    any window length ≥ 1 s, `limit ≥ 1`, a store that reports the window the request falls into: if the request is
+    answered `Retry-After: R`, then `R` seconds later the sliding estimate (this request counted, no other traffic)
+    is strictly below the limit. This is the predicate the driver evaluates on the real code for scripted-count
+    cases (`scriptedRetryOK`). -/
+theorem scripted_retry_truthful (cfg : WinCfg) (txt : Bytes) (hW : 1 ≤ cfg.W) (hL : 1 ≤ cfg.limit)
+    (cur prev ws now : Nat) (h0 : ws * nsPerSec ≤ now) (h1 : now < (ws + cfg.W) * nsPerSec) :
+    scriptedRetryOK cfg.limit cfg.W cur prev ws now
+      (winAnswer cfg txt (decide_ cfg.limit cfg.W { cur := cur, prev := prev, ws := ws } now)) = true := by
+  unfold scriptedRetryOK
+  cases hR : (winAnswer cfg txt (decide_ cfg.limit cfg.W { cur := cur, prev := prev, ws := ws } now)).retryAfter with
+  | none => rfl
+  | some R =>
+    obtain ⟨hrej, hRr⟩ := lemma_retryAfter_some cfg txt _ R hR
+    simp only [decide_eq_true_eq]
+    have hns : (1 : Nat) ≤ nsPerSec := by unfold nsPerSec; omega
+    have hWn : 1 ≤ cfg.W * nsPerSec := Nat.mul_pos hW hns
+    simp only [decide_, retryAfter, elapsedNs] at hrej hRr
+    rw [Nat.le_div_iff_mul_le hWn] at hrej
+    have hlate : now + ((if cfg.limit = 0 then 2 * (cfg.W * nsPerSec) - min (now - ws * nsPerSec) (cfg.W * nsPerSec)
+        else if cur + 1 < cfg.limit then
+          (if 0 < prev then cfg.W * nsPerSec * (prev - (cfg.limit - (cur + 1))) / prev - min (now - ws * nsPerSec) (cfg.W * nsPerSec) else 0)
+        else cfg.W * nsPerSec - min (now - ws * nsPerSec) (cfg.W * nsPerSec) + cfg.W * nsPerSec * (cur + 1 - cfg.limit) / (cur + 1)) / nsPerSec + 1) * nsPerSec
+        ≤ now + R * nsPerSec := by rw [hRr]; exact Nat.le_refl _
+    have hreg := lemma_retry_regime cfg.limit (cfg.W * nsPerSec) (cur + 1) prev _ now (now + R * nsPerSec) hL hlate
+    clear hlate hRr hR
+    rw [Nat.add_mul] at h1
+    unfold estimateNum
+    simp only
+    have e2 : (ws + 2 * cfg.W) * nsPerSec = ws * nsPerSec + 2 * (cfg.W * nsPerSec) := by
+      rw [Nat.add_mul, Nat.mul_assoc]
+    have e1 : (ws + cfg.W) * nsPerSec = ws * nsPerSec + cfg.W * nsPerSec := Nat.add_mul ..
+    rw [e1, e2]
+    generalize cfg.W * nsPerSec = Wn at *
+    generalize ws * nsPerSec = x at *
+    generalize now + R * nsPerSec = t' at *
+    have hel : min (now - x) Wn = now - x := Nat.min_eq_left (by omega)
+    rw [hel] at hreg hrej
+    rcases hreg with ⟨hcl, hp0⟩ | ⟨hcl, hp, X, hX, hlt⟩ | ⟨hcl, Y, hY, hlt⟩
+    · exfalso
+      rw [hp0, Nat.zero_mul, Nat.add_zero] at hrej
+      have := Nat.le_of_mul_le_mul_right hrej hWn
+      omega
+    · clear hrej
+      by_cases hA : t' < x + Wn
+      · simp only [hA, if_true]
+        apply lemma_retry_same Wn (cur + 1) prev cfg.limit (t' - x) hcl (by omega)
+        exact Nat.lt_of_lt_of_le hX (Nat.mul_le_mul_left _ (by omega))
+      · simp only [hA, if_false]
+        by_cases hB : t' < x + 2 * Wn
+        · simp only [hB, if_true]
+          calc (cur + 1) * (Wn - (t' - (x + Wn))) ≤ (cur + 1) * Wn := Nat.mul_le_mul_left _ (Nat.sub_le _ _)
+            _ < cfg.limit * Wn := Nat.mul_lt_mul_of_pos_right hcl hWn
+        · simp only [hB, if_false]
+          exact Nat.mul_pos hL hWn
+    · clear hrej
+      have hA : ¬ t' < x + Wn := by omega
+      simp only [hA, if_false]
+      by_cases hB : t' < x + 2 * Wn
+      · simp only [hB, if_true]
+        apply lemma_retry_next Wn (cur + 1) cfg.limit (t' - (x + Wn)) hL hWn (by omega)
+        exact Nat.lt_of_lt_of_le hY (Nat.mul_le_mul_left _ (by omega))
+      · simp only [hB, if_false]
+        exact Nat.mul_pos hL hWn
+
+/-- non-vacuity, with numbers no real-time test reaches: a 30-day window, a million requests carried over — the
+    advertised wait is 1 296 001 s (15 days), and it is truthful; a wait of 4731 s (what an overflowing
+    `window*num/den` yields) is not -/
+example :
+    let cfg : WinCfg := { limit := 500000, W := 2592000, headers := true, enforce := true, hasCallback := false, atomic := true }
+    let now := 2592000 * 700 * nsPerSec + 1000
+    (winAnswer cfg [] (decide_ cfg.limit cfg.W { cur := 0, prev := 1000000, ws := 2592000 * 700 } now)).retryAfter = some 1296003 ∧
+    scriptedRetryOK cfg.limit cfg.W 0 1000000 (2592000 * 700) now
+      { status := 429, ran := false, limit := none, remaining := none, reset := none, retryAfter := some 4731 } = false := by
+  decide
+
 end Rivaas.C16
